@@ -12,9 +12,9 @@ from . import c15_canon as canon
 
 
 
-def plugin_sx(c, frag="fragments", ops="operations", variant="forward"):
+def plugin_sx(c, frag="fragments", ops="operations"):
     return {"S": [Sym("shorter"), frag], "E": [Sym("extract"), ops],
-            "F": Sym(variant), "N": Sym("noreimports"), "I": Sym("identity")}[c]
+            "F": Sym("forward"), "N": Sym("noreimports"), "I": Sym("identity")}[c]
 
 
 def real_canonical(files, ops_mod="operations"):
@@ -167,12 +167,8 @@ def run(ctx, cases):
             run.broken("K1 canonicaliser", f"unplugged package of seed {case.sc.seed} unreadable: {type(exc).__name__}: {exc}")
             continue
         for cfg in case.configs:
-            # two variants of ClientForwardRefs: the code as found fails when no annotation name is stringified
-            # (empty `if TYPE_CHECKING:` block), the proposed fix skips the block
-            for variant in (("forward", "forward-skip-empty") if "F" in cfg else ("forward",)):
-                cmds.append([Sym("generate"), [plugin_sx(c, k3mod.frag_module(case.sc), k3mod.ops_module(case.sc), variant)
-                                                for c in cfg], enc])
-                meta.append((case, cfg, variant))
+            cmds.append([Sym("generate"), [plugin_sx(c, k3mod.frag_module(case.sc), k3mod.ops_module(case.sc)) for c in cfg], enc])
+            meta.append((case, cfg, "model"))
     results = model.batch("C15", cmds, chunk=8) if cmds else []
     names_by_case = reserved_names(ctx, cases)
     verdict = {}
@@ -224,15 +220,6 @@ def run(ctx, cases):
         if v["real"] == "fails" and oks:
             # both sides refuse: generation with this plugin list crashes, as the faithful model predicts
             run.dist("k1", "agree-on-failure")
-            if "F" in cfg:
-                run.finding(k3mod.EMPTY_TC, f"K1: model (code as found) and generator both fail for {cfg!r}: empty TYPE_CHECKING block",
-                            {"seed": case.sc.seed, "configuration": cfg})
-        if "F" in cfg and oks:
-            run.dist("k1_forward_refs_variant", "+".join(sorted(oks)))
-        if not oks and case.sc.notes.get("legacy_section") and "S" in cfg:
-            run.finding(k3mod.LEGACY, f"K1: with the legacy section ShorterResults does not see fragments_module_name ({cfg!r})",
-                        {"seed": case.sc.seed, "configuration": cfg, "differences": v["variants"]})
-            continue
         if not oks:
             run.violation(f"K1: model and generator disagree for plugins {cfg!r} (seed {case.sc.seed}): "
                           + json.dumps(v["variants"])[:900],
